@@ -836,6 +836,66 @@ def subst(v, f):
     return v
 
 
+class NotEvaluable(Exception):
+    pass
+
+
+def evaluate(v, env):
+    """Evaluate a symbolic value under an assignment of its variable / opaque atoms to integers (formula evaluation on a
+    finite grid, used to read small predicates semantically instead of by shape). env maps atoms or variable names to ints."""
+    if isinstance(v, tuple) and v and v[0] == "bool":
+        return bool(v[1])
+    if isinstance(v, tuple) and len(v) == 2 and v[0] == "P":
+        return evaluate(v[1], env)
+    if not isinstance(v, Poly):
+        raise NotEvaluable(repr(v)[:80])
+    total = Fraction(0)
+    for mono, c in v.t.items():
+        term = Fraction(c)
+        for a, e in mono:
+            term *= Fraction(_eval_atom(a, env)) ** e
+        total += term
+    return int(total) if total.denominator == 1 else total
+
+
+def _eval_atom(a, env):
+    if a in env:
+        return env[a]
+    if a[0] == "v":
+        if a[1] in env:
+            return env[a[1]]
+        raise NotEvaluable("free variable " + a[1])
+    fn = a[1]
+    args = a[2:]
+    ev = lambda k: evaluate(k, env)
+    if fn in ("lt", "le", "eq", "ne"):
+        x, y = ev(args[0]), ev(args[1])
+        return int({"lt": x < y, "le": x <= y, "eq": x == y, "ne": x != y}[fn])
+    if fn == "and":
+        return int(bool(ev(args[0])) and bool(ev(args[1])))
+    if fn == "or":
+        return int(bool(ev(args[0])) or bool(ev(args[1])))
+    if fn == "not":
+        return int(not bool(ev(args[0])))
+    if fn == "abs_diff":
+        return abs(ev(args[0]) - ev(args[1]))
+    if fn == "abs":
+        return abs(ev(args[0]))
+    if fn in ("min", "max"):
+        return (min if fn == "min" else max)(ev(args[0]), ev(args[1]))
+    if fn == "mod":
+        return ev(args[0]) % ev(args[1])
+    if fn == "idiv":
+        return ev(args[0]) // ev(args[1])
+    if fn == "ite":
+        return ev(args[1]) if ev(args[0]) else ev(args[2])
+    if fn in ("saturating_sub",):
+        return max(ev(args[0]) - ev(args[1]), 0)
+    if fn in ("wrapping_sub", "checked_sub"):
+        raise NotEvaluable(fn)
+    raise NotEvaluable("function " + fn)
+
+
 def subst_atom(v, atom, value):
     """replace every top-level occurrence of `atom` in polynomial v by the polynomial `value`"""
     out = Poly()
